@@ -9,7 +9,13 @@ use crate::sys::*;
 use pvcore::refcodec::SPacket;
 
 pub fn check(tier: Tier) -> Check {
-    let mut parts = vec![Part::new("C11/long", json!({"ops": 70000}), 0, 300)];
+    // two Contexts in one process: the identifiers of one are no business of the other. Run first, one
+    // execution at a time, and decisive on its own: with state shared between clients the parallel
+    // executions of the later parts would influence each other (and show as nondeterminism there).
+    let mut parts = vec![
+        Part::new("C11/two-clients", json!({"seq": true, "gate": true}), 0, 120),
+        Part::new("C11/long", json!({"ops": 70000}), 0, 300),
+    ];
     for k in 0..=1u32 {
         parts.push(Part::new(
             "C11/near-wrap",
@@ -39,8 +45,6 @@ pub fn check(tier: Tier) -> Check {
     // a future created long before its first poll: by then the counters have gone once round (rewound
     // by the hook here) and another operation holds the values they had at creation time
     parts.push(Part::new("C11/parked", json!({}), 0, 60));
-    // two Contexts in one process: the identifiers of one are no business of the other
-    parts.push(Part::new("C11/two-clients", json!({}), 0, 120));
     parts.push(Part::new("C11/hook-validate", json!({}), 0, 120));
     parts.push(Part::new("C11/loom", json!({"thorough": tier == Tier::Thorough}), 0, 600));
     Check {
